@@ -174,7 +174,8 @@ def run(ctx):
         n1, n2 = (160, 400) if ctx.tier == 'quick' else (300, 2000)
         for kind in S.KINDS:
             ctx.guarded(check_retention, {'retention': kind, 'kinds': [kind], 'n1': n1, 'n2': n2})
-        ctx.guarded(check_retention, {'retention': 'mixed', 'kinds': list(S.KINDS), 'n1': n1, 'n2': n2})
+        # (mixed traffic fills the bounded caches of the standard library more slowly: the first measuring point lies later)
+        ctx.guarded(check_retention, {'retention': 'mixed', 'kinds': list(S.KINDS), 'n1': max(n1, 20 * len(S.KINDS)), 'n2': max(n1, 20 * len(S.KINDS)) + (n2 - n1)})
 
 
 def replay(ctx, case):
